@@ -3,6 +3,7 @@
 From Coq Require Import List ZArith Lia Bool Arith.
 From Coq Require Import Strings.Byte.
 From WH Require Import lib.Bytes lib.Layout lib.Keccak gen.Extracted gen.ExtractedKeccak model.Vaa model.Contracts proofs.VaaProofs proofs.LayoutProofs proofs.KeccakProofs.
+From WH Require Import gen.ExtractedVaaCodec.
 Import ListNotations.
 Open Scope Z_scope.
 
@@ -168,6 +169,12 @@ Proof.
     |rewrite keccak256_kat_137; reflexivity|rewrite keccak256_kat_1024; reflexivity|exact (proj1 zero_state_ok)|exact (proj2 zero_state_ok)|exact w64_mask64|vm_compute; reflexivity].
 Qed.
 
+(* the signing body of the model IS the translation of serializeBody (gen/x_vaacodec.py: statement by statement, widths from the Go type
+   declarations, regenerated on every run): a changed field order / width / conversion in the source breaks this theorem *)
+Theorem C04_body_follows_source : forall v, go_body v = body v.
+Proof. reflexivity. Qed.
+
+
 Print Assumptions C04_body_layout.
 Print Assumptions C04_digest_is_double_hash.
 Print Assumptions C04_independent_of_header.
@@ -186,3 +193,4 @@ Print Assumptions C04_keccak_table_validator.
 Print Assumptions C04_digest_follows_source.
 Print Assumptions C04_keccak_parameters_follow_source.
 Print Assumptions C04_keccak_tables_are_fips202.
+Print Assumptions C04_body_follows_source.
